@@ -549,7 +549,7 @@ template<typename Alloc>
 void splinetable<Alloc>::write_fits_core(fitsfile* fits) const{
 	int error = 0;
 	/*
-	 * Write the coefficients
+	 * Create the image for the coefficients
 	 * Fits stores arrays in a sort-of Fortran-like way,
 	 * so we need to write the axes in reverse order.
 	 * Note that the strides will not need to be written explicitly,
@@ -601,6 +601,19 @@ void splinetable<Alloc>::write_fits_core(fitsfile* fits) const{
 			throw std::runtime_error("Failed to write aux entry");
 	}
 	// done with headers
+	
+	// Write the coefficients only now: header cards appended after the data
+	// has been written make cfitsio move the whole data array to make room.
+	{
+		uint64_t nelements=1;
+		for(uint32_t i=0; i<ndim; i++)
+			nelements *= this->naxes[i];
+		std::unique_ptr<long[]> fpixel(new long[ndim]);
+		std::fill_n(fpixel.get(),ndim,1L);
+		fits_write_pix(fits, TFLOAT, fpixel.get(), nelements, &coefficients[0], &error);
+		if (error != 0)
+			throw std::runtime_error("Failed to write coefficients to FITS image");
+	}
 	
 	// Write knot vectors
 	for(uint32_t i=0; i<ndim; i++) {
